@@ -479,6 +479,8 @@ func r11d(c *an.Ctx, stateTab map[[2]int64]int64) {
 					nAgg++
 					if call, isCall := v.Call.Args[0].(*ssa.Call); !isCall || an.MethodName(&call.Call) != "GetRoles" {
 						bad = append(bad, "the recomputation does not fold GetRoles() of the role")
+					} else if !sameExclusiveAcquisition(call, st, sp.typ+".mu") || !sameExclusiveAcquisition(v, st, sp.typ+".mu") {
+						bad = append(bad, "the children are read and folded outside the critical section that stores the result: of two concurrent merges the one that read the children first can store last, leaving an aggregate that is not the fold of the children")
 					}
 				} else {
 					bad = append(bad, "state assigned from an unexpected call")
@@ -516,4 +518,19 @@ func reachedOnlyFromLeafAsserts(b *ssa.BasicBlock) bool {
 		}
 	}
 	return true
+}
+
+// sameExclusiveAcquisition: a and b execute under one and the same exclusive acquisition of the mutex whose path ends in suffix.
+func sameExclusiveAcquisition(a, b ssa.Instruction, suffix string) bool {
+	for _, ha := range an.HeldAt(a) {
+		if ha.Mode != "x" || !strings.HasSuffix(ha.Path, suffix) {
+			continue
+		}
+		for _, hb := range an.HeldAt(b) {
+			if hb.Mode == "x" && hb.At == ha.At {
+				return true
+			}
+		}
+	}
+	return false
 }
